@@ -2,6 +2,7 @@
 FUNCTIONS = ['server.Server.handle_request', 'async_server.AsyncServer.handle_request',
              'base_server.BaseServer._get_socket',
              'base_server.BaseServer.transport']
+FUNCTIONS += ['base_server.BaseServer.__init__']
 
 LEVEL_TEXT = ('handle_request (threaded and asyncio servers, one contract text) is verified against the decision-table spec function '
               'refusal(server, environ) written from the statement (transport not allowed, missing EIO=4, '
